@@ -1,12 +1,13 @@
 """C18 -- batch detectors ignore the order of rows inside a batch."""
 from .common import A_COMMON
 TARGETS = [("lemma", "mcount_frame"), ("lemma", "mcount_store"), ("lemma", "mcount_swap"),
-           ("fn", "menelaus.detector:BatchDetector._validate_X")]
+           ("fn", "menelaus.detector:BatchDetector._validate_X"),
+           ("fn", "menelaus.partitioners.KDQTreePartitioner:KDQTreePartitioner.build")]
 LEVEL = "exploration"
 LEVEL_TEXT = ("Bounded: HDDDM / CDBD (detect_batch 2, 3), KdqTreeBatch and NNDVI are run on batch sequences and on the same "
               "sequences with the rows of every batch (and of the reference) permuted, under one numpy seed schedule; the "
               "measured divergence must coincide, and the decisions where the threshold is position-free. "
-              "Deductive (counted separately, lemmas and the shared input validator only): BatchDetector._validate_X returns exactly the rows of the batch, each once, whatever the row labels of a DataFrame; the number of rows satisfying a predicate - a histogram bin, a "
+              "Deductive (counted separately, lemmas and the shared input validator only): BatchDetector._validate_X returns exactly the rows of the batch, each once, whatever the row labels of a DataFrame; KDQTreePartitioner.build derives the minimum cell sizes from per-column maxima and minima (order-free summaries) and hands the data to KDQTreeNode.build; the number of rows satisfying a predicate - a histogram bin, a "
               "kdq-tree cell, which is how the proved KDQTreeNode.fill / build contracts count (mcount of the split masks) - is "
               "unchanged when two rows are exchanged (mcount_store, mcount_swap by induction), hence under every permutation (a "
               "product of exchanges; that last step is a meta-argument, not mechanised). The permutation proofs for the "
